@@ -237,7 +237,12 @@ theorem startApp_frame4 (cid : Nat) (blocked : List Nat) (a : App) (s : State) :
     Frame4 s (startApp cid blocked a s).1 := by
   unfold startApp
   split
-  · exact bindAll_frame4 _ _ _ _ _
+  · have h := bindAll_frame4 cid a blocked a.listen s
+    generalize bindAll cid a blocked a.listen s = r at h
+    obtain ⟨s', b⟩ := r
+    cases b with
+    | true => exact h
+    | false => exact h.trans (closeApp_frame4 _ _ _)
   · split
     · exact ev_frame4 _ _
     · have h := (ev_frame4 s [.start cid a.name]).trans
@@ -350,40 +355,43 @@ theorem own_stopApps {cid : Nat} {base : List Sock} (hb : ∀ k ∈ base, k.cid 
     simp only [List.mem_filter, decide_eq_true_eq, List.map_cons, List.mem_cons, not_or] at hn ⊢
     exact ⟨hn.1.1, by simpa using hn.1.2, hn.2⟩
 
-/-- a Start that fails: a probe app leaves nothing of its own; the HTTP app leaves what it bound -/
+/-- a Start that fails leaves nothing of its own (probe apps and, since the fix, the HTTP app) -/
 theorem own_startApp {cid : Nat} {base : List Sock} {names : List Nat} {s : State} (a : App)
     (blocked : List Nat) (hb : ∀ k ∈ base, k.cid ≠ cid) (h : Own cid base names s) :
-    Own cid base (if (startApp cid blocked a s).2 = true ∨ a.isHttp then a.name :: names else names)
+    Own cid base (if (startApp cid blocked a s).2 = true then a.name :: names else names)
       (startApp cid blocked a s).1 := by
+  have hclose : ∀ s', Own cid base (a.name :: names) s' → Own cid base names (closeApp cid a.name s') := by
+    intro s' h1
+    refine (own_close a.name hb h1).mono ?_
+    intro n hn
+    simp only [List.mem_filter, List.mem_cons, decide_eq_true_eq] at hn
+    rcases hn.1 with h | h
+    · exact absurd h hn.2
+    · exact h
   unfold startApp
   split
-  · rename_i hh
-    simp only [hh, or_true, if_true]
-    exact own_bind a blocked a.listen h
-  · rename_i hh
-    split
-    · simp [hh]; exact h.socks_eq rfl
+  · have h1 := own_bind a blocked a.listen h
+    generalize bindAll cid a blocked a.listen s = r at h1
+    obtain ⟨s', b⟩ := r
+    cases b with
+    | true => simpa using h1
+    | false => simpa using hclose s' h1
+  · split
+    · simp; exact h.socks_eq rfl
     · have h0 : Own cid base names (evA s [.start cid a.name]) := h.socks_eq rfl
       have h1 := own_bind a blocked a.listen h0
       generalize bindAll cid a blocked a.listen (evA s [.start cid a.name]) = r at h1
       obtain ⟨s', b⟩ := r
       cases b with
       | true => simp; exact h1.socks_eq rfl
-      | false =>
-        simp [hh]
-        refine ((own_close a.name hb h1).socks_eq rfl).mono ?_
-        intro n hn
-        simp only [List.mem_filter, List.mem_cons, decide_eq_true_eq] at hn
-        rcases hn.1 with h | h
-        · exact absurd h hn.2
-        · exact h
+      | false => simp; exact (hclose s' h1).socks_eq rfl
 
-/-- the start loop, when it fails, leaves only sockets of the rejected config's HTTP app -/
+/-- the start loop, when it fails, leaves no socket of the rejected configuration -/
 theorem own_startApps_fail {cid : Nat} {base : List Sock} (blocked : List Nat)
     (hb : ∀ k ∈ base, k.cid ≠ cid) : ∀ (rest started : List App) (s : State),
     Own cid base (started.map (·.name)) s →
     (startApps cid blocked started rest s).2 = false →
-    Own cid base [3] (startApps cid blocked started rest s).1
+    Own cid base [] (startApps cid blocked started rest s).1
   | [], _, s, _, hf => by simp [startApps] at hf
   | a :: rest, started, s, h, hf => by
     unfold startApps at hf ⊢
@@ -392,35 +400,34 @@ theorem own_startApps_fail {cid : Nat} {base : List Sock} (blocked : List Nat)
     obtain ⟨s', b⟩ := r
     cases b with
     | true =>
-      simp only [true_or, if_true] at h1
+      simp only [if_true] at h1
       refine own_startApps_fail blocked hb rest (started ++ [a]) s' (h1.mono ?_) hf
       intro n hn; simp at hn ⊢; rcases hn with h | h
       · exact Or.inr h
       · exact Or.inl h
     | false =>
-      simp only [Bool.false_eq_true, false_or] at h1
+      simp only [Bool.false_eq_true, if_false] at h1
       refine (own_stopApps hb started _ s' h1).mono ?_
       intro n hn
       simp only [List.mem_filter, decide_eq_true_eq] at hn
-      obtain ⟨hn1, hn2⟩ := hn
-      split at hn1
-      · rename_i hh
-        rcases List.mem_cons.mp hn1 with h | h
-        · simp [App.isHttp] at hh; simp [h, hh]
-        · exact absurd h hn2
-      · exact absurd hn1 hn2
+      exact absurd hn.1 hn.2
 
 theorem startApp_ok {cid : Nat} {blocked : List Nat} {a : App} {s s' : State}
     (h : startApp cid blocked a s = (s', true)) : s'.socks = s.socks ++ appSocks cid a := by
   unfold startApp at h
   split at h
   · obtain ⟨pre, suf, h1, h2, h3, _⟩ := bindAll_spec cid a blocked a.listen s
-    rw [h] at h2 h3
-    have := h3 rfl
-    subst this
-    simp at h1
-    simp only at h2
-    rw [h2, appSocks_eq, h1]
+    generalize bindAll cid a blocked a.listen s = r at h h2 h3
+    obtain ⟨s1, b⟩ := r
+    cases b with
+    | false => simp at h
+    | true =>
+      simp at h
+      have := h3 rfl
+      subst this
+      simp at h1
+      simp only at h2
+      rw [← h, h2, appSocks_eq, h1]
   · split at h
     · simp at h
     · obtain ⟨pre, suf, h1, h2, h3, _⟩ := bindAll_spec cid a blocked a.listen (evA s [.start cid a.name])
@@ -692,53 +699,6 @@ theorem run_ok {cid : Nat} {c : Cfg} {e : Env} {s s' : State} {o : Option Ctx}
           refine ⟨ctx', rfl, h3.2.1.trans hc1, h3.2.2.1.trans hc2, ?_⟩
           rw [h3.1.socks, startApps_ok _ _ _ _ h2, h1.socks, hc2]
 
-/-- the clean variant of `own_startApps_fail`: if no HTTP app has a blocked listener after its
-    first one, a failing start loop leaves no socket of the rejected configuration at all -/
-theorem own_startApps_fail_clean {cid : Nat} {base : List Sock} (blocked : List Nat)
-    (hb : ∀ k ∈ base, k.cid ≠ cid) : ∀ (rest started : List App) (s : State),
-    (∀ a ∈ rest, a.isHttp = true → ∀ x ∈ a.listen.tail, x ∉ blocked) →
-    Own cid base (started.map (·.name)) s →
-    (startApps cid blocked started rest s).2 = false →
-    Own cid base [] (startApps cid blocked started rest s).1
-  | [], _, s, _, _, hf => by simp [startApps] at hf
-  | a :: rest, started, s, hx, h, hf => by
-    unfold startApps at hf ⊢
-    have h1 := own_startApp a blocked hb h
-    have hclean : a.isHttp = true → (startApp cid blocked a s).2 = false → (startApp cid blocked a s).1 = s := by
-      intro hh hfl
-      unfold startApp at hfl ⊢
-      simp only [hh, if_true] at hfl ⊢
-      obtain ⟨pre, suf, e1, e2, _, e4⟩ := bindAll_spec cid a blocked a.listen s
-      obtain ⟨x, suf', e5, e6⟩ := e4 hfl
-      cases pre with
-      | nil => rw [e2]; simp
-      | cons p pre' =>
-        exfalso
-        refine hx a List.mem_cons_self hh x ?_ e6
-        rw [e1, e5]; simp
-    generalize startApp cid blocked a s = r at h1 hf hclean
-    obtain ⟨s', b⟩ := r
-    cases b with
-    | true =>
-      simp only [true_or, if_true] at h1
-      refine own_startApps_fail_clean blocked hb rest (started ++ [a]) s'
-        (fun a' ha' => hx a' (List.mem_cons_of_mem _ ha')) (h1.mono ?_) hf
-      intro n hn; simp at hn ⊢; rcases hn with h | h
-      · exact Or.inr h
-      · exact Or.inl h
-    | false =>
-      have h1' : Own cid base (started.map (·.name)) s' := by
-        by_cases hh : a.isHttp = true
-        · have := hclean hh rfl
-          simp only at this
-          rw [this]; exact h
-        · simp only [Bool.false_eq_true, false_or, hh, if_false] at h1
-          exact h1
-      refine (own_stopApps hb started _ s' h1').mono ?_
-      intro n hn
-      simp only [List.mem_filter, decide_eq_true_eq] at hn
-      exact absurd hn.1 hn.2
-
 /-- closing every app of the configuration removes every socket of the context -/
 theorem own_stop_all {cid : Nat} {base : List Sock} (hb : ∀ k ∈ base, k.cid ≠ cid)
     {names : List Nat} {as : List App} {s : State} (h : Own cid base names s)
@@ -756,12 +716,10 @@ theorem own_of_flatMap {cid : Nat} {base : List Sock} {l : List App} {s : State}
   obtain ⟨ad, _, rfl⟩ := List.mem_map.mp hka
   exact ⟨rfl, List.mem_map.mpr ⟨a, ha, rfl⟩⟩
 
-/-- a rejected run leaves the old sockets untouched, in place; whatever else is left belongs to
-    the rejected configuration's HTTP app (nothing at all if `clean`) -/
+/-- a rejected run leaves the sockets exactly as they were -/
 theorem run_err {cid : Nat} {c : Cfg} {e : Env} {s s' : State} {o : Option Ctx} {r : Res}
     (hb : ∀ k ∈ s.socks, k.cid ≠ cid) (h : run cid c e s = (s', o, r)) (hr : r ≠ .ok) :
-    Own cid s.socks [3] s' ∧
-    ((∀ a ∈ c.apps, a.isHttp = true → ∀ x ∈ a.listen.tail, x ∉ e.blocked) → s'.socks = s.socks) := by
+    s'.socks = s.socks := by
   unfold run at h
   have h1 := provisionContext_frame cid c e.pp s
   have hc := provisionContext_ctx cid c e.pp s
@@ -772,35 +730,30 @@ theorem run_err {cid : Nat} {c : Cfg} {e : Env} {s s' : State} {o : Option Ctx} 
   | some r' =>
     simp at h
     obtain ⟨rfl, _, _⟩ := h
-    exact ⟨base1.mono (by simp), fun _ => h1.socks⟩
+    exact h1.socks
   | none =>
     cases o1 with
     | none =>
       simp at h
       obtain ⟨rfl, _, _⟩ := h
-      exact ⟨base1.mono (by simp), fun _ => h1.socks⟩
+      exact h1.socks
     | some ctx =>
       obtain ⟨hc1, hc2⟩ := hc s1 ctx rfl
       dsimp only at h
       split at h
       · simp at h
         obtain ⟨rfl, _, _⟩ := h
-        have hs := (cancel_frame cid ctx.cbs ctx.wkeys ctx.live s1).socks
-        exact ⟨(base1.mono (by simp)).socks_eq hs, fun _ => hs.trans h1.socks⟩
+        exact (cancel_frame cid ctx.cbs ctx.wkeys ctx.live s1).socks.trans h1.socks
       have hf := own_startApps_fail e.blocked hb (order e.ps ctx.apps) [] s1 (by simpa using base1)
-      have hfc := own_startApps_fail_clean e.blocked hb (order e.ps ctx.apps) [] s1
-      generalize h2 : startApps cid e.blocked [] (order e.ps ctx.apps) s1 = r2 at h hf hfc
+      generalize h2 : startApps cid e.blocked [] (order e.ps ctx.apps) s1 = r2 at h hf
       obtain ⟨s2, b⟩ := r2
       cases b with
       | false =>
         simp at h
         obtain ⟨rfl, _, _⟩ := h
         have hs := (cancel_frame cid ctx.cbs ctx.wkeys ctx.live s2).socks
-        refine ⟨(hf rfl).socks_eq hs, fun hx => ?_⟩
         rw [hs]
-        refine (hfc ?_ (by simpa using base1) rfl).nil
-        intro a ha
-        exact hx a (hc2 ▸ (order_perm e.ps ctx.apps).mem_iff.mp ha)
+        exact (hf rfl).nil
       | true =>
         dsimp only at h
         have h3 := finishSettingUp_spec ctx e.post s2
@@ -811,20 +764,18 @@ theorem run_err {cid : Nat} {c : Cfg} {e : Env} {s s' : State} {o : Option Ctx} 
         | false =>
           simp at h
           obtain ⟨rfl, _, _⟩ := h
-          have hsock : (unsyncedStop (some ctx') s3).socks = s.socks := by
-            unfold unsyncedStop
-            dsimp only
-            rw [(cancel_frame _ _ _ _ _).socks]
-            have hs3 : s3.socks = s.socks ++ (order e.ps ctx.apps).flatMap (appSocks cid) := by
-              rw [h3.1.socks, startApps_ok _ _ _ _ h2, h1.socks]
-            have hown := own_of_flatMap hs3
-            rw [h3.2.1, hc1]
-            refine own_stop_all hb hown ?_
-            intro n hn
-            rw [h3.2.2.1]
-            obtain ⟨a, ha, rfl⟩ := List.mem_map.mp hn
-            exact List.mem_map.mpr ⟨a, (order_perm e.ps ctx.apps).mem_iff.mp ha, rfl⟩
-          exact ⟨⟨[], by simp [hsock], by simp⟩, fun _ => hsock⟩
+          unfold unsyncedStop
+          dsimp only
+          rw [(cancel_frame _ _ _ _ _).socks]
+          have hs3 : s3.socks = s.socks ++ (order e.ps ctx.apps).flatMap (appSocks cid) := by
+            rw [h3.1.socks, startApps_ok _ _ _ _ h2, h1.socks]
+          have hown := own_of_flatMap hs3
+          rw [h3.2.1, hc1]
+          refine own_stop_all hb hown ?_
+          intro n hn
+          rw [h3.2.2.1]
+          obtain ⟨a, ha, rfl⟩ := List.mem_map.mp hn
+          exact List.mem_map.mpr ⟨a, (order_perm e.ps ctx.apps).mem_iff.mp ha, rfl⟩
 
 /-! ### decodeAndRun, changeTo -/
 
